@@ -320,6 +320,12 @@ def run(ctx):
             flows_from(mk[0].id, mk[0].stmt.value, {ctor_text}) and norm(ctors[0][1].args[0]) == tp and \
             flows_from(ctors[0][0].id, ctors[0][1].args[1], {plist}) and \
             flows_from(use[0][0].id, use[0][1].func.value, {slot, ctor_text}) and flows_from(use[0][0].id, use[0][1].args[1], {plist})
+    pci = prog.cls("producer:Producer")
+    muts_ = sorted({"%s:%s" % (f_.name, k_) for f_, k_, n_ in prog.attr_accesses(pci, "partitioners") if k_ != "read" and not (
+        f_.name == "__init__" and k_ == "write") and not (f_ is np_ and k_ == "mutate" and isinstance(n_, ast.Assign))})
+    r.check(not muts_, "producer:Producer#partitioners-only-grow", "the partitioner table is modified by %s; an entry is created once per topic and "
+            "never replaced or removed" % muts_, where(np_, np_.node), "a metadata reset mid-cycle pops the topic's partitioner: the round-robin "
+            "cycle restarts from the first partition although the list is unchanged")
     r.check(ok, "%s#one-partitioner-per-topic" % np_.qname, "partitioner is re-created per call or not given the current partition list", where(np_, np_.node),
             "round robin restarts at every send: all messages go to one partition")
 
